@@ -591,6 +591,10 @@ def replay(case):
         from mc.checks import c04_amb
 
         return c04_amb.replay(case)
+    if case.get("part") == "zero_limits":
+        from mc.checks import c04_zero
+
+        return c04_zero.replay(case)
     vs = eval_libpass(case) if case.get("part") == "libpass" else eval_ctx(case)
     out, seen = [], set()
     for raw, desc in vs:
@@ -741,6 +745,10 @@ def run(ctx):
     from mc.checks import c04_amb
 
     ctx.merge(core.pmap(c04_amb.work, c04_amb.tasks()), part="ambiguous")
+    # part "zero_limits": cost limits whose value is 0 (sun_md5_crypt)
+    from mc.checks import c04_zero
+
+    ctx.merge(core.pmap(c04_zero.work, c04_zero.tasks()), part="zero_limits")
     ctx.cov["states"] = acc.counters["states"]
     ctx.cov["transitions"] = acc.counters["transitions"]
     ctx.cov["traces_validated_against_impl"] = acc.counters["histories"]
